@@ -5,7 +5,7 @@ from copy import copy
 RULE = ("random curves (polynomial/rational, degree 0..3, repeated knots): split at random nodes (new values, existing knots, ends, repeats), "
         "split() into Bezier pieces, re-join of the pieces; independently built adjacent pairs (continuous or not, different degrees, "
         "rational or not); different meeting points.  Non-trivial: degree >= 1 and at least one cut; distinct = distinct (curve, nodes)."
-        " Also: operands refined by knot insertion (only the junction knot may lose multiplicity), repeated split after modifying the pieces.")
+        " Also: operands refined by knot insertion (only the junction knot may lose multiplicity), repeated split after modifying the pieces; integer / dyadic knot vectors with an int- or float-knot twin split first.")
 EXPLANATION = ("L2: pieces and joined curve vs the model; L3: `rf.eqsub` (each piece equals the original on its sub-interval, for every u), "
                "piece count / clamping, `rf.eq` of the re-joined curve, expected junction multiplicities from the exact jump orders (`rf.needed`).")
 ASSUMPTIONS = ["weights positive"]
@@ -30,7 +30,15 @@ def run_case(ctx, case):
     rec.count("split", "bezier-pieces" if nodes is None else "nodes")
     curve = make_curve(U, P, W)
     start = curve_state(curve)
-    r = impl(lambda: curve.split() if nodes is None else curve.split(list(nodes)))
+    # the same split on numerically equal knots of another number type first (python ints / floats with the very same exact
+    # nodes): whatever the library memoises on knot tuples is then filled by that computation
+    for tw in mixed_twins(U, P, W):
+        impl(lambda: tw.split() if nodes is None else tw.split(list(nodes)))
+        impl(lambda: tw.degree_increase(1))
+        rec.count("twin", "mixed-knot-types")
+    form = form_of(case)
+    rec.count("nodes-as", form)
+    r = impl(lambda: curve.split() if nodes is None else curve.split(as_form(nodes, form)))
     if curve_state(curve) != start:
         rec.violation("split modified the curve", case)
     m = drv.call("curve.split", *curve_args(*start), nodes)
@@ -167,6 +175,19 @@ def run(ctx):
             if rng.random() < 0.3:
                 nodes.append(nodes[0])
         run_case(ctx, ser(dict(kind="split", U=U, P=P, W=W, nodes=nodes)))
+    for i in range(budget(ctx, 14, 150)):
+        # integer / dyadic knot vectors (they exist as python ints / floats too): split at knots, at integers / dyadic values
+        U = rand_int_kv(rng, pmax=3, nintmax=2) if i % 2 == 0 else rand_dyadic_kv(rng, pmax=3, nintmax=2)
+        n_ = kv_info(U)[1]
+        P = rand_points(rng, n_, rng.choice([1, 2]))
+        W = rand_weights(rng, n_, rng.choice(["none", "none", "pos"]))
+        a, b = U[0], U[-1]
+        if rng.random() < 0.3:
+            nodes = None
+        else:
+            cand = sorted(set(U)) + [a + (b - a) * F(k, 8) for k in range(1, 8)]
+            nodes = [rng.choice(cand) for _ in range(rng.randint(1, 3))]
+        run_case(ctx, ser(dict(kind="split", U=U, P=P, W=W, nodes=nodes)))
     for i in range(budget(ctx, 50, 600)):
         dim = rng.choice([1, 2])
         pa, pb = rng.randint(0, 3), rng.randint(0, 3)
@@ -199,7 +220,7 @@ def run(ctx):
             PB[0] = PA[-1]
         if label == "rational":
             WA = rand_weights(rng, na, rng.choice(["pos", "none"]))
-            WB = rand_weights(rng, nb, rng.choice(["pos", "pos", "neg"]))
+            WB = rand_weights(rng, nb, "pos")
         if label == "mismatch":
             UB = [x + F(1, 3) for x in UB]
         run_case(ctx, ser(dict(kind="pair", label=label, A=dict(U=UA, P=PA, W=WA), B=dict(U=UB, P=PB, W=WB))))
